@@ -76,14 +76,21 @@ def updIno (fs : Fs) (i : Nat) (f : Inode → Inode) : Fs :=
 def hasChild (fs : Fs) (p : Path) : Bool :=
   fs.ents.any (fun d => match d.1 with | [] => false | _ :: q => decide (q = p))
 
-/-- error of the path walk to the parent directory of `p` (`none` = parent is a directory) -/
-def parentErr (fs : Fs) (p : Path) : Option Errno :=
-  match p with
+/-- error of the path walk to the parent directory of `p` (`none` = the parent is a directory).  As in the
+kernel, the first component that cannot be traversed decides: a non-directory on the way gives `ENOTDIR` even
+when deeper components are missing as well. -/
+def parentErr (fs : Fs) : Path → Option Errno
   | [] => some .EINVAL
   | _ :: q =>
     match fs.view q with
-    | none => some .ENOENT
     | some (_, nd) => if nd.kind = .dir then none else some .ENOTDIR
+    | none =>
+      match q with
+      | [] => some .ENOENT
+      | _ :: _ =>
+        match parentErr fs q with
+        | some .ENOTDIR => some .ENOTDIR
+        | _ => some .ENOENT
 
 /-- errno of a lookup of the missing path `p` -/
 def missingErr (fs : Fs) (p : Path) : Errno :=
